@@ -6,24 +6,24 @@ ALLV = [(2, 7), (3, 6), (3, 7), (3, 8), (3, 9), (3, 10), (3, 11), (3, 12), (3, 1
 
 CONF = {
     "C02": dict(versions=ALLV, sections=["dis"], focus=["EXTENDED_ARG", "many_consts", "many_names", "long_body", "many_locals"],
-                quick=(40, 30), thorough=(2500, 400), max_code_quick=6000, max_code_thorough=30000, min_eval=200,
+                quick=(40, 30), thorough=(900, 300), max_code_quick=6000, max_code_thorough=10000, min_eval=200,
                 rule="one evaluation = one code object's instruction stream from xdis.Bytecode(co, opc) checked for exact tiling of "
                      "co_code and compared at V's offsets (opcode, opname, folded operand) with V's dis.get_instructions "
                      "(2.7: interpreter's opcode tables cross-checked against dis.disassemble text); distinct = SHA-1 of co_code; "
                      "non-trivial = >= 8 instructions or contains EXTENDED_ARG"),
     "C03": dict(versions=ALLV, sections=["dis"], focus=["closure", "cell_param", "class", "comprehension", "many_consts", "many_names",
                                                         "many_locals", "compare", "super"],
-                quick=(40, 40), thorough=(2500, 400), max_code_quick=6000, max_code_thorough=30000, min_eval=1000,
+                quick=(40, 40), thorough=(900, 300), max_code_quick=6000, max_code_thorough=10000, min_eval=1000,
                 rule="one evaluation = one table-indexed instruction (const/name/local/free/compare) whose canonical argval from xdis "
                      "is compared with V's dis argval at the same offset; distinct = (version, opname, operand class, big-table flag); "
                      "non-trivial = operand != 0"),
     "C04": dict(versions=ALLV, sections=["dis", "labels"], focus=["loops", "try", "async", "match", "long_jump", "generator", "try_nest"],
-                quick=(40, 40), thorough=(2500, 400), max_code_quick=6000, max_code_thorough=30000, min_eval=200,
+                quick=(40, 40), thorough=(900, 300), max_code_quick=6000, max_code_thorough=10000, min_eval=200,
                 rule="one evaluation = one code object: set(opc.findlabels) vs V's dis.findlabels, every jump argval vs V's, "
                      "is_jump_target flags vs labels U 3.11+ handler targets, every label an instruction start or len(co_code); "
                      "distinct = SHA-1 of co_code; non-trivial = has >= 1 jump"),
     "C05": dict(versions=ALLV, sections=["dis", "lines"], focus=["line_gaps", "backward_lines", "multiline_expr", "long_columns"],
-                quick=(40, 40), thorough=(2500, 400), max_code_quick=6000, max_code_thorough=30000, min_eval=200,
+                quick=(40, 40), thorough=(900, 300), max_code_quick=6000, max_code_thorough=10000, min_eval=200,
                 rule="one evaluation = one code object: list(opc.findlinestarts(co)) vs V's dis.findlinestarts, starts_line of the "
                      "dup_lines=False stream exact and of the dup_lines=True stream a consistent superset, plus offset2line queries "
                      "against a linear scan; distinct = SHA-1 of (line starts, firstlineno); non-trivial = >= 2 line starts"),
